@@ -1,15 +1,13 @@
+\* expected counterexample (D65): examples judged only when the field is declared
 SPECIFICATION Spec
 CONSTANTS
   Formats <- AllFormats
-  MaxFields = 6
-  MaxChecks = 3
+  MaxFields = 3
+  MaxChecks = 2
   FTags <- FieldTags
   CTags <- CheckTags
-  ExamplesJudgedWhenComplete = TRUE
+  ExamplesJudgedWhenComplete = FALSE
   Decorations <- AllDeco
 INVARIANT TypeOK
 INVARIANT AcceptedIffSound
-INVARIANT RejectionNamesTheRow
-INVARIANT KeepsOrder
-INVARIANT Emit
 CHECK_DEADLOCK FALSE
